@@ -299,6 +299,19 @@ Proof.
     split; [eapply Z.le_trans; [|exact L] | eapply Z.lt_le_trans; [exact U|]]; apply Hmono; lia.
 Qed.
 
+(** two facts about a low part [a] below a unit [P] and a digit block [lo] of fewer than Q units *)
+Lemma abs_add_mul_lt a lo P Q : Z.abs a < P -> Z.abs lo < Q -> Z.abs (a + lo * P) < P * Q.
+Proof.
+  intros Ha Hl. assert (Z.abs (a + lo * P) <= Z.abs a + Z.abs lo * P).
+  { eapply Z.le_trans; [apply Z.abs_triangle|]. rewrite Z.abs_mul, (Z.abs_eq P) by lia. lia. }
+  assert (Z.abs lo * P <= (Q - 1) * P) by (apply Z.mul_le_mono_nonneg_r; lia). lia.
+Qed.
+Lemma add_mul_nz a lo P : a <> 0 -> Z.abs a < P -> a + lo * P <> 0.
+Proof.
+  intros Ha Hl E. destruct (Z.eq_dec lo 0) as [->|Hn]; [lia|].
+  assert (P <= Z.abs (lo * P)) by (rewrite Z.abs_mul, (Z.abs_eq P) by lia; nia). lia.
+Qed.
+
 (** exact low part: (sig + low / B^lp) * B^e is the exact value *)
 Theorem rrs_exact p m sig e low lp is_sub :
   1 <= p -> 0 <= lp -> Z.abs low < B ^ lp -> (low <> 0 -> sig <> 0) ->
@@ -356,9 +369,7 @@ Proof.
     unfold shl_digits.
     pose proof (Bpos shift ltac:(lia)) as HPs.
     assert (Hl' : Z.abs (low + lo * B ^ lp) < B ^ (lp + shift)).
-    { rewrite pow_split by (try exact B_ge_2; lia).
-      set (P := B ^ lp) in *. set (Q := B ^ shift) in *.
-      assert (Z.abs (low + lo * P) <= Z.abs low + Z.abs lo * P) by nia. nia. }
+    { rewrite pow_split by (try exact B_ge_2; lia). apply abs_add_mul_lt; assumption. }
     assert (EW : sig * B ^ lp + low = hi * B ^ (lp + shift) + (low + lo * B ^ lp)).
     { rewrite E1. rewrite (Z.add_comm lp shift), pow_split by (try exact B_ge_2; lia). ring. }
     apply tail_rounded; try assumption; try lia.
@@ -437,15 +448,13 @@ Proof.
     pose proof (Bpos sh ltac:(lia)) as HPsh.
     assert (HT1' : 2 * Z.abs T < B ^ g) by (apply HT1; lia).
     assert (Hls : Z.abs (sigma + lo * B ^ 2) < B ^ (2 + sh)).
-    { rewrite pow_split by (try exact B_ge_2; lia). set (P := B ^ 2) in *. set (Q := B ^ sh) in *.
-      assert (Z.abs (sigma + lo * P) <= 1 + Z.abs lo * P) by nia. nia. }
+    { rewrite pow_split by (try exact B_ge_2; lia). apply abs_add_mul_lt; [lia | assumption]. }
     assert (Hlsn : sigma + lo * B ^ 2 <> 0).
-    { set (P := B ^ 2) in *. destruct (Z.eq_dec lo 0) as [->|Hl0]; [lia|]. nia. }
+    { apply add_mul_nz; lia. }
     assert (HlT : Z.abs (lo * B ^ g + T) < B ^ (g + sh)).
-    { rewrite pow_split by (try exact B_ge_2; lia). set (P := B ^ g) in *. set (Q := B ^ sh) in *.
-      assert (Z.abs (lo * P + T) <= Z.abs lo * P + Z.abs T) by nia. nia. }
+    { rewrite pow_split by (try exact B_ge_2; lia). rewrite (Z.add_comm (lo * B ^ g) T). apply abs_add_mul_lt; assumption. }
     assert (HlTn : lo * B ^ g + T <> 0).
-    { set (P := B ^ g) in *. destruct (Z.eq_dec lo 0) as [->|Hl0]; [lia|]. nia. }
+    { rewrite (Z.add_comm (lo * B ^ g) T). apply add_mul_nz; assumption. }
     apply (tail_far p m hi (e + sh) (sigma + lo * B ^ 2) (2 + sh) (sig * B ^ g + T) (e - g) (g + sh) (lo * B ^ g + T));
       try assumption; try lia.
     + rewrite E1. rewrite pow_split by (try exact B_ge_2; lia). ring.
